@@ -153,6 +153,12 @@ def name_ok(n):
 # ------------------------------------------------------------------------------------ executing
 def classify_death(rc, stderr):
     s = stderr[-6000:]
+    m = re.search(r"ERROR: AddressSanitizer: ([\w-]+)", stderr)
+    if m:
+        return "asan:" + m.group(1), stderr[max(0, m.start() - 100):m.start() + 1400]
+    m = re.search(r"Assertion '([^']{0,100})' failed", stderr)
+    if m:
+        return "glibcxx-assertion:" + m.group(1), stderr[max(0, m.start() - 400):m.start() + 300]
     m = re.search(r"ERROR: AddressSanitizer: ([\w-]+)", s)
     if m:
         return "asan:" + m.group(1), s
@@ -335,11 +341,13 @@ def gen_sweeps(h, cat):
         for e in range(n):
             add("%s|Abbreviation" % label, e)
             add("%s|operator<<" % label, e)
+            add("%s|operator<<" % label, e, seed=3, fault="sinkeach")
             if is_unit:
                 add("%s|RelatedUnitSystem" % label, e)
         for i in range(len(lits)):
             add("%s|ParseEnumeration(literal)" % label, i)
-            add("%s|ParseEnumeration(mutated)" % label, i, seed=i + 7)
+            for rep in range(4):
+                add("%s|ParseEnumeration(mutated)" % label, i, seed=i * 4 + rep + 7)
         if is_unit:
             for s in range(len(cat.unit_systems)):
                 add("%s|ConsistentUnit" % label, s)
@@ -408,7 +416,7 @@ def gen_history(h, rng, nplans, maxops=40):
         for _ in range(r.rng(4, maxops)):
             w = r.below(100)
             if "slot" in kinds and w < 12:
-                flags = r.below(256) | (r.below(40) << 8)
+                flags = r.below(256) | (r.below(40) << 8) | (r.below(2) << 14)
                 if r.below(8):
                     flags &= ~128
                 ops.append(cfg(r.below(4), r.choice([-1, 0, 1, 2, 5, 17, 40, 200]), r.below(3), r.choice([0, 0, 0, 1, 2, 4, 3]), flags))
@@ -462,7 +470,7 @@ def precise_fault(o, ev):
     if m:
         o["fault"], o["fa"], o["fb"] = m.group(1), int(m.group(2)), 0
         return o
-    if f in ("sink:nullbuf", "sink:flags"):
+    if f in ("sink:nullbuf", "sink:flags") or f.startswith("sink:width:"):
         return o   # only reachable through sinkeach: keep the enumerating fault in the replay
     m = re.match(r"^sink:(-?\d+):(\d+):(\d+)$", f)
     if m:
